@@ -139,6 +139,8 @@ func isPrivateReverse(qname string) bool {
 }
 
 func ptrIP(ptr string) net.IP {
+	// DNS names are case-insensitive: IN-ADDR.ARPA. is in-addr.arpa.
+	ptr = lowerASCII(ptr)
 	if !strings.HasSuffix(ptr, ".arpa.") {
 		return nil
 	}
@@ -188,6 +190,17 @@ func ptrIP(ptr string) net.IP {
 		ptr = ptr[:idx]
 	}
 	return ip
+}
+
+// lowerASCII returns s with ASCII upper-case letters folded to lower case.
+func lowerASCII(s string) string {
+	b := []byte(s)
+	for i, c := range b {
+		if 'A' <= c && c <= 'Z' {
+			b[i] = c + 'a' - 'A'
+		}
+	}
+	return string(b)
 }
 
 func addrIP(addr net.Addr) (ip net.IP) {
